@@ -309,3 +309,143 @@ Proof.
     destruct (rdown ptr (l_align l) - start <? rup (l_size l) (l_align l)) eqn:E; rsimpl; [reflexivity|].
     apply N.ltb_ge in E. rewrite wsub_small by lia. reflexivity.
 Qed.
+
+(* ---------- dealloc / shrink / grow: the expressions that move the finger and size the copies ----------
+   These functions call other methods and write memory, so they are not translated as wholes;
+   tools/rs2v.py extracts the expressions below (together with the `let`s they depend on) and the
+   lemmas say that each equals the corresponding piece of ArenaModel.{dealloc, shrink, grow}. *)
+
+Definition mem_env (m start ptr : N) : env := List.app (self_chunk start ptr) (cenv m).
+
+Lemma src_is_last_allocation_ok m start ptr p :
+  call_fn src_fns (mem_env m start ptr) "is_last_allocation" [VN p] = Ret (VB (ptr =? p)).
+Proof. unfold call_fn, mem_env. rsimpl. reflexivity. Qed.
+
+(* Bump::dealloc: `if self.is_last_allocation(ptr)` and the finger it then stores *)
+Lemma src_dealloc_ok m start ptr p l : pow2 m -> m < W -> ptr + l_size l + (m - 1) < W ->
+  call_fn src_fns (mem_env m start ptr) "dealloc_cond" [VN p; vlayout l] = Ret (VB (ptr =? p)) /\
+  call_fn src_fns (mem_env m start ptr) "dealloc_new_finger" [VN p; vlayout l]
+  = Ret (VN (rup (ptr + l_size l) m)).
+Proof.
+  intros Hm Hmw Hs. pose proof (pow2_pos _ Hm) as Hm0. split.
+  - unfold call_fn, mem_env. rsimpl. reflexivity.
+  - unfold call_fn, mem_env. rsimpl.
+    replace (ptr + l_size l <? W) with true by (symmetry; apply N.ltb_lt; lia). rsimpl.
+    replace (1 <=? m) with true by (symmetry; apply N.leb_le; lia). rsimpl.
+    replace (ptr + l_size l + (m - 1) <? W) with true by (symmetry; apply N.ltb_lt; lia). rsimpl.
+    rewrite land_lnot64 by lia.
+    change (N.ldiff (ptr + l_size l + (m - 1)) (m - 1)) with (rdown_mask (ptr + l_size l + (m - 1)) m).
+    rewrite mask_rdown by exact Hm. fold (rup (ptr + l_size l) m).
+    pose proof (rup_ge (ptr + l_size l) m ltac:(lia)) as G. pose proof (rup_lt (ptr + l_size l) m ltac:(lia)) as L.
+    replace (ptr + l_size l <=? rup (ptr + l_size l) m) with true by (symmetry; apply N.leb_le; exact G). rsimpl.
+    replace (ptr + l_size l + (rup (ptr + l_size l) m - (ptr + l_size l)) <? W) with true by (symmetry; apply N.ltb_lt; lia).
+    rsimpl. f_equal. f_equal. lia.
+Qed.
+
+Lemma aligned_iff_mod p a : a <> 0 -> (p =? rdown p a) = (p mod a =? 0).
+Proof.
+  intros Ha. rewrite rdown_sub_mod by exact Ha. pose proof (N.mod_le p a Ha) as H.
+  destruct (p mod a =? 0) eqn:E.
+  - apply N.eqb_eq in E. rewrite E. apply N.eqb_eq. lia.
+  - apply N.eqb_neq in E. apply N.eqb_neq. lia.
+Qed.
+
+Definition shrink_delta_of (m : N) (old new : layout) : N :=
+  rdown (l_size old - l_size new) (N.max (l_align new) m).
+
+(* Bump::shrink *)
+Lemma src_shrink_ok m start ptr p old new :
+  pow2 m -> pow2 (l_align new) -> m < W -> l_align new < W -> p < W -> l_size old + 1 < W ->
+  l_size new <= l_size old -> ptr + l_size old < W ->
+  let en := mem_env m start ptr in
+  let args := [VN p; vlayout old; vlayout new] in
+  call_fn src_fns en "shrink_align_raised" args = Ret (VB (l_align old <? l_align new)) /\
+  call_fn src_fns en "shrink_lucky" args = Ret (VB (p mod l_align new =? 0)) /\
+  call_fn src_fns en "shrink_fresh_copy_len" args = Ret (VN (l_size new)) /\
+  call_fn src_fns en "shrink_delta" args = Ret (VN (shrink_delta_of m old new)) /\
+  call_fn src_fns en "shrink_in_place_cond" args
+    = Ret (VB ((ptr =? p) && ((l_size old + 1) / 2 <=? shrink_delta_of m old new))) /\
+  call_fn src_fns en "shrink_new_finger" args = Ret (VN (ptr + shrink_delta_of m old new)) /\
+  call_fn src_fns en "shrink_in_place_copy_len" args = Ret (VN (l_size new)).
+Proof.
+  intros Hm Ha Hmw Haw Hp Ho Hle Hpo en args.
+  pose proof (pow2_pos _ Hm) as Hm0. pose proof (pow2_pos _ Ha) as Ha0.
+  assert (PM : pow2 (N.max (l_align new) m)) by (apply pow2_max; assumption).
+  assert (PM0 : 0 < N.max (l_align new) m) by lia.
+  assert (T1 : (1 <=? N.max (l_align new) m) = true) by (apply N.leb_le; lia).
+  assert (T2 : (l_size new <=? l_size old) = true) by (apply N.leb_le; exact Hle).
+  assert (DL : shrink_delta_of m old new <= l_size old).
+  { unfold shrink_delta_of. pose proof (rdown_le (l_size old - l_size new) (N.max (l_align new) m) ltac:(lia)). lia. }
+  assert (RD : forall en', call_fn src_fns en' "round_down_to" [VN (l_size old - l_size new); VN (N.max (l_align new) m)]
+               = Ret (VN (shrink_delta_of m old new))).
+  { intros en'. apply src_round_down_to_ok; [exact PM | lia]. }
+  unfold en, args, mem_env.
+  repeat match goal with |- _ /\ _ => split end.
+  - unfold call_fn. rsimpl. reflexivity.
+  - unfold call_fn. rsimpl. replace (1 <=? l_align new) with true by (symmetry; apply N.leb_le; lia). rsimpl.
+    rewrite land_lnot64 by exact Hp.
+    change (N.ldiff p (l_align new - 1)) with (rdown_mask p (l_align new)). rewrite mask_rdown by exact Ha.
+    rewrite aligned_iff_mod by lia. reflexivity.
+  - unfold call_fn. rsimpl. reflexivity.
+  - unfold call_fn. rsimpl. rewrite T2. rsimpl. rewrite T1. rsimpl.
+    change (N.land (l_size old - l_size new) (lnot64 (N.max (l_align new) m - 1)))
+      with (N.land (l_size old - l_size new) (lnot64 (N.max (l_align new) m - 1))).
+    rewrite land_lnot64 by lia.
+    change (N.ldiff (l_size old - l_size new) (N.max (l_align new) m - 1)) with (rdown_mask (l_size old - l_size new) (N.max (l_align new) m)).
+    rewrite mask_rdown by exact PM. reflexivity.
+  - unfold call_fn. rsimpl. rewrite T2. rsimpl. rewrite T1. rsimpl.
+    rewrite land_lnot64 by lia.
+    change (N.ldiff (l_size old - l_size new) (N.max (l_align new) m - 1)) with (rdown_mask (l_size old - l_size new) (N.max (l_align new) m)).
+    rewrite mask_rdown by exact PM. fold (shrink_delta_of m old new).
+    destruct (ptr =? p); rsimpl; [|reflexivity].
+    replace (l_size old + 1 <? W) with true by (symmetry; apply N.ltb_lt; exact Ho). rsimpl. reflexivity.
+  - unfold call_fn. rsimpl. rewrite T2. rsimpl. rewrite T1. rsimpl.
+    rewrite land_lnot64 by lia.
+    change (N.ldiff (l_size old - l_size new) (N.max (l_align new) m - 1)) with (rdown_mask (l_size old - l_size new) (N.max (l_align new) m)).
+    rewrite mask_rdown by exact PM. fold (shrink_delta_of m old new).
+    replace (ptr + shrink_delta_of m old new <? W) with true by (symmetry; apply N.ltb_lt; lia). rsimpl. reflexivity.
+  - unfold call_fn. rsimpl. reflexivity.
+Qed.
+
+(* Bump::grow: the rounded new size, the in-place test, the extra layout asked of the fast path and
+   the copy lengths *)
+Lemma src_grow_ok m start ptr p old new :
+  pow2 m -> m < W -> l_size old < W ->
+  let en := mem_env m start ptr in
+  let args := [VN p; vlayout old; vlayout new] in
+  call_fn src_fns en "grow_rounded_size" args = Ret (vtry (round_up_to (l_size new) m)) /\
+  call_fn src_fns en "grow_in_place_cond" args = Ret (VB ((l_align new <=? l_align old) && (ptr =? p))) /\
+  (forall ns, round_up_to (l_size new) m = Some ns -> l_size old <= ns ->
+     call_fn src_fns en "grow_delta" args = Ret (VN (ns - l_size old)) /\
+     call_fn src_fns en "grow_extra_layout" args
+       = Ret (if layout_ok (ns - l_size old) (l_align old)
+              then vlayout (mkLayout (ns - l_size old) (l_align old)) else VNone)) /\
+  call_fn src_fns en "grow_in_place_copy_len" args = Ret (VN (l_size old)) /\
+  call_fn src_fns en "grow_fresh_copy_len" args = Ret (VN (l_size old)).
+Proof.
+  intros Hm Hmw Ho en args. pose proof (pow2_pos _ Hm) as Hm0.
+  assert (T1 : (1 <=? m) = true) by (apply N.leb_le; lia).
+  unfold en, args, mem_env.
+  repeat match goal with |- _ /\ _ => split end.
+  - unfold call_fn. rsimpl. rewrite T1. rsimpl. unfold round_up_to, checked_add.
+    destruct (l_size new + (m - 1) <? W) eqn:E; rsimpl; [|reflexivity].
+    apply N.ltb_lt in E. rewrite land_lnot64 by exact E.
+    change (N.ldiff (l_size new + (m - 1)) (m - 1)) with (rdown_mask (l_size new + (m - 1)) m).
+    rewrite mask_rdown by exact Hm. reflexivity.
+  - unfold call_fn. rsimpl. destruct (l_align new <=? l_align old); rsimpl; reflexivity.
+  - intros ns Hns Hle. unfold round_up_to, checked_add in Hns.
+    destruct (l_size new + (m - 1) <? W) eqn:E; [|discriminate]. inversion Hns; subst ns; clear Hns.
+    apply N.ltb_lt in E.
+    assert (MR : N.land (l_size new + (m - 1)) (lnot64 (m - 1)) = rdown (l_size new + (m - 1)) m).
+    { rewrite land_lnot64 by exact E.
+      change (N.ldiff (l_size new + (m - 1)) (m - 1)) with (rdown_mask (l_size new + (m - 1)) m).
+      apply mask_rdown. exact Hm. }
+    assert (T2 : (l_size old <=? rdown (l_size new + (m - 1)) m) = true) by (apply N.leb_le; exact Hle).
+    assert (T3 : (l_size new + (m - 1) <? W) = true) by (apply N.ltb_lt; exact E).
+    split.
+    + unfold call_fn. rsimpl. rewrite T1. rsimpl. rewrite T3. rsimpl. rewrite MR. rewrite T2. rsimpl. reflexivity.
+    + unfold call_fn. rsimpl. rewrite T1. rsimpl. rewrite T3. rsimpl. rewrite MR. rewrite T2. rsimpl.
+      destruct (layout_ok (rdown (l_size new + (m - 1)) m - l_size old) (l_align old)); rsimpl; reflexivity.
+  - unfold call_fn. rsimpl. reflexivity.
+  - unfold call_fn. rsimpl. reflexivity.
+Qed.
